@@ -1,6 +1,7 @@
 import RtenVerif.Lemmas.SymSimp
 
 /-! `range` is sound (C11.T2, for the code after fix f73ff8c). -/
+set_option linter.unusedSimpArgs false
 namespace RtenVerif.Sym
 
 theorem tdiv_bounds_pos {x y : Int} (hy : 0 < y) :
@@ -99,18 +100,18 @@ theorem evc_bin_ok {σ : Env} {o : Op} {a b : SymExpr} {v : Int}
       simp only [h1, h2] at h
       refine ⟨x, y, h1, h2, ?_⟩
       cases o <;> simp only [evalOp, Arith.checked] at h
-      · obtain ⟨rfl, h'⟩ := lift_chk h; simp [opF]; exact h'
-      · obtain ⟨rfl, h'⟩ := lift_chk h; simp [opF]; exact h'
-      · obtain ⟨rfl, h'⟩ := lift_chk h; simp [opF]; exact h'
+      · obtain ⟨rfl, h'⟩ := lift_chk h; simp [opF, bcastI]; exact h'
+      · obtain ⟨rfl, h'⟩ := lift_chk h; simp [opF, bcastI]; exact h'
+      · obtain ⟨rfl, h'⟩ := lift_chk h; simp [opF, bcastI]; exact h'
       · split at h
         · simp at h
-        · rename_i hy; obtain ⟨rfl, h'⟩ := lift_chk h; simp [opF]; exact ⟨hy, h'⟩
+        · rename_i hy; obtain ⟨rfl, h'⟩ := lift_chk h; simp [opF, bcastI]; exact ⟨hy, h'⟩
       · split at h
         · simp at h
-        · rename_i hy; obtain ⟨rfl, h'⟩ := lift_chk h; simp [opF]; exact ⟨hy, h'⟩
+        · rename_i hy; obtain ⟨rfl, h'⟩ := lift_chk h; simp [opF, bcastI]; exact ⟨hy, h'⟩
       · simp at h; simp [opF, h]
       · simp at h; simp [opF, h]
-      · simp at h; simp [opF, h]
+      · simp at h; subst h; simp [opF]
 
 theorem sat_lo {b v : Int} (h : b ≤ v) (hv : I32MIN ≤ v ∧ v ≤ I32MAX) : sat b ≤ v := by
   unfold sat I32MIN I32MAX at *; (repeat' split) <;> omega
@@ -163,17 +164,17 @@ theorem range_sound (σ : Env) :
     have hev : ev σ (.bin o a b) = .ok (opF o x y) := ev_bin_ok'.mpr ⟨x, y, hxe, hye, h0, rfl⟩
     have hr : I32MIN ≤ opF o x y ∧ opF o x y ≤ I32MAX := by
       rcases hrng with h | h
-      · rcases h with rfl | rfl | rfl <;> simp only [opF] <;> split <;> omega
+      · rcases h with rfl | rfl | rfl <;> simp only [opF, bcastI] <;> split <;> omega
       · exact h
     refine ⟨hev, hr, ?_⟩
     cases o <;> simp only [range]
     · -- add
-      simp only [opF] at hr ⊢
+      simp only [opF, bcastI] at hr ⊢
       exact ⟨sat_lo (by omega) hr, sat_hi (by omega) hr⟩
     · -- sub
       exact hr
     · -- mul
-      simp only [opF] at hr ⊢
+      simp only [opF, bcastI] at hr ⊢
       split
       · rename_i hpos
         have hx0 : 0 ≤ x := by omega
@@ -186,7 +187,7 @@ theorem range_sound (σ : Env) :
       · exact hr
     · -- div
       have hy0 := h0 (.inl rfl)
-      simp only [opF] at hr ⊢
+      simp only [opF, bcastI] at hr ⊢
       split
       · have := tdiv_bounds_pos (x := x) (y := y) (by omega)
         unfold imin imax at *
@@ -208,7 +209,7 @@ theorem range_sound (σ : Env) :
           (repeat' split) <;> omega
     · -- divCeil
       have hy0 := h0 (.inr rfl)
-      simp only [opF] at hr ⊢
+      simp only [opF, bcastI] at hr ⊢
       split
       · have := divCeilI_bounds_pos (x := x) (y := y) (by omega)
         unfold imin imax at *
@@ -228,14 +229,14 @@ theorem range_sound (σ : Env) :
           have s2 := s2 hnx
           (repeat' split) <;> omega
     · -- max
-      simp only [opF, imin, imax]
+      simp only [opF, bcastI, imin, imax]
       (repeat' split) <;> omega
     · -- min
-      simp only [opF, imin, imax]
+      simp only [opF, bcastI, imin, imax]
       (repeat' split) <;> omega
     · -- broadcast
       have := hdB rfl x y hxe hye
-      simp only [opF, imin, imax]
+      simp only [opF, bcastI, imin, imax]
       (repeat' split) <;> omega
 
 end RtenVerif.Sym
